@@ -84,6 +84,7 @@ func (p *propC03) Gen(idx int) *Scenario {
 		hosted = hostedMesgNums(t)
 	}
 	repeat := r.Chance(1, 4)
+	rich := r.Chance(1, 3)
 	n := r.Range(1, 60)
 	// long runs: containers that grow past 512 / 1024 / 2048 entries of one message kind
 	var dominant uint16
@@ -165,6 +166,17 @@ func (p *propC03) Gen(idx int) *Scenario {
 			d := &DefOp{Local: local, Arch: g.arch(), Global: gl}
 			if pf != nil {
 				d.Fields = [][3]int{{int(pf.Num), baseOf(pf.Base).Size, int(pf.Base)}}
+				if rich && gl != gRecord && gl != gLap && gl != gSession && gl != gSegmentLap && gl != gEvent {
+					// further scalar integer fields with seeded values (counts, indexes,
+					// enums): a container must not treat a message by what it says
+					for _, xf := range prof.byMesg[gl] {
+						xb := baseOf(xf.Base)
+						if xf == pf || xf.Kind != kindNative || xf.Array || !xb.Integer || len(d.Fields) >= 5 || !r.Chance(1, 2) {
+							continue
+						}
+						d.Fields = append(d.Fields, [3]int{int(xf.Num), xb.Size, int(xf.Base)})
+					}
+				}
 			} else if !prof.Known(gl) {
 				d.Fields = [][3]int{{1, 2, 0x84}}
 			}
@@ -172,11 +184,19 @@ func (p *propC03) Gen(idx int) *Scenario {
 		}
 		d := g.defs[local]
 		var pl []byte
-		for _, fd := range d.Fields {
+		for fi, fd := range d.Fields {
 			b := make([]byte, fd[1])
 			v := uint64(seq)
 			if fd[1] == 1 {
 				v = uint64(seq%250) + 1
+			}
+			if fi > 0 && prof.Known(d.Global) {
+				// extra field of a rich scenario
+				if r.Chance(1, 2) {
+					v = uint64(r.Intn(200))
+				} else {
+					v = pickValue(r, baseOf(byte(fd[2])), true)
+				}
 			}
 			putN(b, d.be(), v)
 			pl = append(pl, b...)
